@@ -73,7 +73,8 @@ def run(ctx):
                 "spec->impl: parse of the canonical image and of every re-arranged image compared with the value (order "
                 "included), parse(serialize(v)) compared with v; impl->spec: serialize(v) of every generated value and of "
                 "seeded random maps up to 300 files (lengths around multiples of 32, Shift-JIS names) and of maps with 255/256/257, "
-                "4095/4096/4097 and 20 000 mostly empty files (thorough: also 65 535), and every empty/non-empty pattern over 1..5 "
+                "4095/4096/4097, 20 000, 65 534 and 65 535 mostly empty files (the upper edge of the quantifier; quick validates "
+                "every entry's structure and a sample of names/bodies, thorough everything), and every empty/non-empty pattern over 1..5 "
                 "files, under the release and the checked build, validated by TLC with "
                 "the statement's conditions (well-formed, exact, 32-aligned bodies, reference parse = value). "
                 "Non-trivial = image holding at least one file.")
@@ -103,13 +104,19 @@ def run(ctx):
     recorded = []
     for profile, b, seed_shift in (("release", binary, 0), ("checked", checked, 7919)):
         rpath = ctx.path("pack_record_%s.ndjson" % profile)
-        flags = ["bounds"] + ([] if ctx.quick() or profile == "checked" else ["big"])
+        # upper edge of the quantifier (65 534 / 65 535 files): sampled validation in quick, full in thorough
+        flags = ["bounds"] + ([] if profile == "checked" else ["edge" if ctx.quick() else "edge-full"])
+        flags += [] if ctx.quick() or profile == "checked" else ["big"]
         ctx.harness(b, ["pack-record", rpath, str(runs // 2), str(max_files)] + flags, env={"VERIF_SEED": str(ctx.seed + seed_shift)})
         for e in vlib.read_ndjson(rpath):
             e["profile"] = profile
             recorded.append(e)
     events += recorded
     _validate(ctx, events)
+    for e in recorded:
+        if e["mode"] == "beyond":
+            ctx.extra["beyond_the_quantifier_%d_files" % e["files"]] = e["outcome"]
+            print("NOTE (beyond the property statement): %d files (more than the statement's 65535): %s" % (e["files"], e["outcome"]), flush=True)
     ctx.traces += len(events)
     ctx.evaluations += len(events)
     ctx.nontrivial += sum(1 for e in recorded if e["value"])
